@@ -18,6 +18,10 @@ class Deadlock(Exception):
     pass
 
 
+class Aborted(Exception):
+    """a run cut short on purpose (an executor lost): used to leave caller-owned objects in a half-used state"""
+
+
 class Spin(Exception):
     pass
 
@@ -399,6 +403,9 @@ class FakeCluster:
 
     def recv_events(self):
         from cascade.executor.msg import DatasetTransmitPayload
+        self.recv_calls = getattr(self, "recv_calls", 0) + 1
+        if getattr(self, "abort_after", None) is not None and self.recv_calls > self.abort_after:
+            raise Aborted("the cluster went away (scripted)")
         self._close_ctl()
         env = []
         rng = self.rng
@@ -441,7 +448,7 @@ def _alarm(signum, frame):
     raise Spin("controller loop made no Bridge call for 5 s (busy spin)")
 
 
-def run_case(spec, seed, mode, executor=None, funcs=None):
+def run_case(spec, seed, mode, executor=None, funcs=None, rerun=True):
     """Runs the REAL controller loop on the fake cluster.  Returns dict with rounds, outcome,
     problems (oracle), outputs."""
     import random
@@ -470,8 +477,51 @@ def run_case(spec, seed, mode, executor=None, funcs=None):
     outs = None
     if state is not None:
         outs = {cluster.ds_id(k): norm_value(v) for k, v in state.outputs.items()}
-    return {"spec": spec, "seed": seed, "mode": mode, "rounds": cluster.rounds, "outcome": outcome, "detail": detail,
-            "problems": cluster.problems, "outputs": outs, "cluster": cluster}
+    r = {"spec": spec, "seed": seed, "mode": mode, "rounds": cluster.rounds, "outcome": outcome, "detail": detail,
+         "problems": cluster.problems, "outputs": outs, "cluster": cluster}
+    if outcome == "ok" and not cluster.problems and not post_checks(r) and rerun:
+        # The caller owns the JobInstance and the Preschedule (precompute is expensive and pure): handing the same
+        # objects to the controller again -- a retry after a lost executor, a sweep over clusters -- must behave like
+        # the first time.  (a) the same objects once more after the complete run; (b) a fresh Preschedule used by a
+        # run that is cut short at a random round and then by a complete one.
+        def one(pre_, abort_after=None):
+            c2 = FakeCluster(spec, job, env, wids, random.Random(seed), mode, executor)
+            c2.salt = seed
+            c2.abort_after = abort_after
+            o2, d2, st2 = "ok", "", None
+            old = signal.signal(signal.SIGALRM, _alarm)
+            signal.setitimer(signal.ITIMER_REAL, 5.0)
+            try:
+                st2 = run(job, c2, pre_)
+            except Aborted:
+                o2 = "aborted"
+            except Deadlock as e:
+                o2, d2 = "deadlock", str(e)
+            except Spin as e:
+                o2, d2 = "spin", str(e)
+            except Exception as e:
+                o2, d2 = "raised", f"{type(e).__name__}: {e}"
+            finally:
+                signal.setitimer(signal.ITIMER_REAL, 0)
+                signal.signal(signal.SIGALRM, old)
+            c2.end_of_run()
+            ou2 = {c2.ds_id(k): norm_value(v) for k, v in st2.outputs.items()} if st2 is not None else None
+            return {"spec": spec, "seed": seed, "mode": mode, "rounds": c2.rounds, "outcome": o2, "detail": d2,
+                    "problems": c2.problems, "outputs": ou2, "cluster": c2}
+        again = []
+        for label, pre_, cut in (("second run with the same JobInstance and Preschedule objects", pre, None),
+                                 ("run with the JobInstance and Preschedule objects of a run that was cut short", None, True)):
+            if cut:
+                pre_ = precompute(job)
+                one(pre_, abort_after=random.Random(seed + 1).randrange(1, len(cluster.rounds) + 2))
+            r2 = one(pre_)
+            found = [(sig, label + ": " + what) for sig, what in list(r2["problems"]) + post_checks(r2)]
+            if not found and r2["outputs"] != outs:
+                found.append(("rerun-outputs-differ", f"{label} returned {str(r2['outputs'])[:200]}, the first run {str(outs)[:200]}"))
+            again += found
+        r["problems"] = list(r["problems"]) + again
+        r["rerun"] = {"problems": again[:6]}
+    return r
 
 
 # ----------------------------------------------------------------------------- Coq emission
